@@ -224,6 +224,24 @@ def rule_d(res, m):
     res.check(ok, "C14.d", "hq:safe-scaler", "%s:get_safe_lossy_hq_slice_size_scaler" % m.rel, "the scaler must be max(1, ceil((ceil(picture_bytes / slices) - 4) / 255)): the largest slice's length fields then fit 8 bits", by="ceil((largest slice - 4) / 255), at least 1")
 
 
+    # the scaler in use is never below the safe one: every definition of the name used as `scaler` above is
+    # max(<safe call>, ...) -- a caller's override may raise it, not replace it
+    fn = m.funcs["make_transform_data_hq_lossy"]
+    scn = None
+    for c in ast.walk(fn):
+        if isinstance(c, ast.Call) and dotted(c.func) == "make_hq_slice":
+            mkp = [a.arg for a in m.funcs["make_hq_slice"].args.args]
+            if "slice_size_scaler" in mkp and mkp.index("slice_size_scaler") < len(c.args):
+                scn = dotted(c.args[mkp.index("slice_size_scaler")])
+    defs = [a for a in ast.walk(fn) if (isinstance(a, ast.Assign) and any(dotted(t) == scn for t in a.targets)) or (isinstance(a, ast.AugAssign) and dotted(a.target) == scn)]
+
+    def safe_max(v):
+        return isinstance(v, ast.Call) and dotted(v.func) == "max" and any(isinstance(x, ast.Call) and dotted(x.func) == "get_safe_lossy_hq_slice_size_scaler" and [dotted(y) for y in x.args] == [fn.args.args[0].arg, "num_slices"] for x in v.args)
+
+    ok = scn is not None and len(defs) >= 1 and all(isinstance(a, ast.Assign) and safe_max(a.value) for a in defs)
+    res.check(ok, "C14.d", "hq:scaler-at-least-the-safe-one", "%s:make_transform_data_hq_lossy" % m.rel, "the slice size scaler handed to make_hq_slice must be max(get_safe_lossy_hq_slice_size_scaler(picture_bytes, num_slices), <override>) at every definition (found %s): a smaller override lets a slice's budget exceed 255 scaler units and its third length field overflow 8 bits" % [short(a, 70) for a in defs], by="max(safe, override)")
+
+
 def rule_e(repo, res, m):
     fn = m.funcs["make_transform_data_ld_lossy"]
     where = "%s:make_transform_data_ld_lossy" % m.rel
